@@ -133,6 +133,7 @@ PROPS = {
     "C18": {
         "profiles": ["debug"],
         "rule": "names: keywords, words that cannot be raw identifiers, every case shape (camel, snake, leading / trailing / doubled underscores, digits), non-identifiers, as record fields (snake case) and variant tags (upper camel case): the identifier and the serde rename are read off the emitted item with syn; "
+                "whole field lists (op rs.fields): 2-6 labels drawn from pools that meet after case conversion (fooBar / foo_bar / FooBar / foo_bar_, type / Type / type_ / TYPE, self / Self / self_ / crate, a / A / a_ / aB / a_b / AB) or random over a small alphabet, as the fields of one record or the tags of one variant: identifier and rename of every member against the model of the uniquifying loop; "
                 "programs from the C14 generator (anonymous nested records / variants / functions / services at several paths, recursion needing Box, services given by name, constructors), every third one with definition and field names that collide after case conversion, prelude names and keywords: the binding (canister_call template) is parsed with syn, every item is read back as the Candid type the derive macro computes "
                 "(label = serde rename else identifier without r#; newtype and unit rules; define_function! / define_service!), every definition the service uses must have a structurally equal item and every method the same argument and result types; "
                 "compile stage (op rs.derive, crate harness/bindcheck): five hand-written programs (every Rust keyword as a field next to ordinary fields, keyword variant tags, renames, recursive and anonymous nested types) and a share of the generated programs whose binding reads back right (quick 40, thorough 400) have their emitted items — every derive'd struct / enum, type alias, define_function! / define_service! — compiled by rustc with the real candid_derive, and `T::ty()` of the items is compared with the source definitions by /repo's `equal`; a compile error is a violation naming the program; "
@@ -143,7 +144,7 @@ PROPS = {
             "two readings are compared: the one the binding intends (`_5_` = id 5, `(T,)` struct = one-field record) and the derive macro's; a difference between them is one of the recorded findings",
         ],
         "assumptions": ["binding configuration files (rename, use_type, attributes) are not exercised", "structural equality is decided by /repo's own `equal` (C05)"],
-        "partial": ["equality of the emitted types with the source is established by the implementation-level oracles (syn reading on every generated program, rustc + the real derive macro on a share of them) only; the methods of the service (impl block, which needs ic_cdk) are read with syn but not compiled; theorem: the derive label of every emitted field / variant is the source label, for all names"],
+        "partial": ["equality of the emitted types with the source is established by the implementation-level oracles (syn reading on every generated program, rustc + the real derive macro on a share of them) only; the methods of the service (impl block, which needs ic_cdk) are read with syn but not compiled; theorems: the derive label of every emitted field / variant is the source label, for all names and all field lists; the identifiers of the members of one record / variant are pairwise distinct as rustc compares them, for all field lists (the type-name half of that clause is the recorded finding KF-C18-name-collision)"],
     },
     "C19": {
         "profiles": ["debug"],
